@@ -296,3 +296,114 @@ package message
 //@   ensures h.publisher == nil ==> calls(PC) == old(calls(PC))
 //@   ensures wgtoken(h.runningHandlersWg) == old(wgtoken(h.runningHandlersWg)) [every-token-added-was-handed-to-an-invocation]
 //@   panics-ensures calls(PC) == old(calls(PC)) + 1 && panicked(PC, old(calls(PC)))
+
+//@ spec dapp(d PublisherDecorator, p Publisher) Publisher
+//@ spec sapp(d SubscriberDecorator, s Subscriber) Subscriber
+//@ spec decoP(ds []PublisherDecorator, i int, p Publisher) Publisher := i >= len(ds) ? p : dapp(ds[i], decoP(ds, i + 1, p)) decreases len(ds) - i
+//@ spec decoS(ds []SubscriberDecorator, i int, s Subscriber) Subscriber := i < 0 ? s : sapp(ds[i], decoS(ds, i - 1, s)) decreases i + 1
+
+//@ func (*Router).decorateHandlerPublisher
+//@   ghost holds r.handlersLock
+//@   requires r != nil && h != nil && has(r.handlers, h.name) && r.handlers[h.name] == h
+//@   requires forall i int :: 0 <= i && i < len(r.publisherDecorators) ==> r.publisherDecorators[i] != nil
+//@   callee PD = decorator : function dapp
+//@   nopanic
+//@   ensures result == nil ==> h.publisher == decoP(r.publisherDecorators, 0, old(h.publisher)) [first-added-decorator-is-outermost-and-acts-first-on-outgoing-messages]
+//@   ensures result != nil ==> h.publisher == old(h.publisher) [untouched-on-error]
+//@   inv loop 1: 0 - 1 <= i && i < len(r.publisherDecorators) && pub == decoP(r.publisherDecorators, i + 1, old(h.publisher)) && h.publisher == old(h.publisher) [nesting-built-from-the-inside-out]
+//@   modifies h.publisher
+
+//@ func (*Router).decorateHandlerSubscriber$1
+//@   requires h != nil
+//@   maypanic
+//@   ensures msg != nil ==> stamped(h, msg.ctx) [received-message-carries-the-handler-context]
+//@   modifies field(Message.ctx)
+
+//@ func (*Router).decorateHandlerSubscriber
+//@   ghost holds r.handlersLock
+//@   requires r != nil && h != nil && has(r.handlers, h.name) && r.handlers[h.name] == h
+//@   requires forall i int :: 0 <= i && i < len(r.subscriberDecorators) ==> r.subscriberDecorators[i] != nil
+//@   callee SD = decorator : function sapp
+//@   nopanic
+//@   ghost let ctxdeco = sub @loop 1
+//@   ensures result == nil ==> hasdyntype(ctxdeco, "*message.messageTransformSubscriberDecorator") && unboxptr(ctxdeco, "message.messageTransformSubscriberDecorator").sub == old(h.subscriber) && isclosure(unboxptr(ctxdeco, "message.messageTransformSubscriberDecorator").transform, "message.(*Router).decorateHandlerSubscriber$1") && h.subscriber == decoS(r.subscriberDecorators, len(r.subscriberDecorators) - 1, ctxdeco) [context-decorator-innermost-then-decorators-in-the-order-added]
+//@   ensures result != nil ==> h.subscriber == old(h.subscriber) [untouched-on-error]
+//@   inv loop 1: sub == decoS(r.subscriberDecorators, rangeindex, ctxdeco) && h.subscriber == old(h.subscriber) && hasdyntype(ctxdeco, "*message.messageTransformSubscriberDecorator") && unboxptr(ctxdeco, "message.messageTransformSubscriberDecorator").sub == old(h.subscriber) && isclosure(unboxptr(ctxdeco, "message.messageTransformSubscriberDecorator").transform, "message.(*Router).decorateHandlerSubscriber$1") [applied-in-order-so-far]
+//@   modifies h.subscriber
+
+//@ func (*Router).AddMiddleware
+//@   requires r != nil
+//@   nopanic
+//@   ensures len(r.middlewares) == old(len(r.middlewares)) + len(m) [appended-in-call-order]
+//@   ensures forall i int :: 0 <= i && i < old(len(r.middlewares)) ==> r.middlewares[i].Handler == old(r.middlewares[i].Handler) && r.middlewares[i].HandlerName == old(r.middlewares[i].HandlerName) && r.middlewares[i].IsRouterLevel == old(r.middlewares[i].IsRouterLevel) [earlier-registrations-keep-their-place]
+//@   ensures forall j int :: 0 <= j && j < len(m) ==> r.middlewares[old(len(r.middlewares)) + j].Handler == m[j] && r.middlewares[old(len(r.middlewares)) + j].IsRouterLevel && r.middlewares[old(len(r.middlewares)) + j].HandlerName == "" [new-ones-are-router-level]
+//@   modifies r.middlewares
+
+//@ func (*Handler).AddMiddleware
+//@   requires h != nil && h.handler != nil && h.router != nil && h.router.middlewaresLock != nil
+//@   nopanic
+//@   ensures len(h.router.middlewares) == old(len(h.router.middlewares)) + len(m) [appended-in-call-order]
+//@   ensures forall i int :: 0 <= i && i < old(len(h.router.middlewares)) ==> h.router.middlewares[i].Handler == old(h.router.middlewares[i].Handler) && h.router.middlewares[i].HandlerName == old(h.router.middlewares[i].HandlerName) && h.router.middlewares[i].IsRouterLevel == old(h.router.middlewares[i].IsRouterLevel) [earlier-registrations-keep-their-place]
+//@   ensures forall j int :: 0 <= j && j < len(m) ==> h.router.middlewares[old(len(h.router.middlewares)) + j].Handler == m[j] && !h.router.middlewares[old(len(h.router.middlewares)) + j].IsRouterLevel && h.router.middlewares[old(len(h.router.middlewares)) + j].HandlerName == h.handler.name [new-ones-belong-to-this-handler-only]
+//@   modifies h.router.middlewares
+
+//@ func (*Router).AddPublisherDecorators
+//@   requires r != nil
+//@   nopanic
+//@   ensures len(r.publisherDecorators) == old(len(r.publisherDecorators)) + len(dec) [appended-in-call-order]
+//@   ensures forall i int :: 0 <= i && i < old(len(r.publisherDecorators)) ==> r.publisherDecorators[i] == old(r.publisherDecorators[i]) [earlier-ones-keep-their-place]
+//@   ensures forall j int :: 0 <= j && j < len(dec) ==> r.publisherDecorators[old(len(r.publisherDecorators)) + j] == dec[j] [new-ones-follow]
+//@   modifies r.publisherDecorators
+
+//@ func (*Router).AddSubscriberDecorators
+//@   requires r != nil
+//@   nopanic
+//@   ensures len(r.subscriberDecorators) == old(len(r.subscriberDecorators)) + len(dec) [appended-in-call-order]
+//@   ensures forall i int :: 0 <= i && i < old(len(r.subscriberDecorators)) ==> r.subscriberDecorators[i] == old(r.subscriberDecorators[i]) [earlier-ones-keep-their-place]
+//@   ensures forall j int :: 0 <= j && j < len(dec) ==> r.subscriberDecorators[old(len(r.subscriberDecorators)) + j] == dec[j] [new-ones-follow]
+//@   modifies r.subscriberDecorators
+
+// ---- message transform decorators (C20, C09) ----
+
+//@ func MessageTransformPublisherDecorator$1
+//@   nopanic
+//@   ensures result1 == nil && hasdyntype(result0, "*message.messageTransformPublisherDecorator") && unboxptr(result0, "message.messageTransformPublisherDecorator").Publisher == pub [wraps-the-publisher]
+
+//@ func (messageTransformPublisherDecorator).Publish
+//@   requires d.transform != nil && d.Publisher != nil
+//@   callee TR = d.transform
+//@   callee P = d.Publisher.Publish
+//@   ensures calls(TR) == old(calls(TR)) + len(messages) && (forall j int :: 0 <= j && j < len(messages) ==> arg(TR, 0, old(calls(TR)) + j) == messages[j]) [every-message-transformed-once-in-order]
+//@   ensures calls(P) == old(calls(P)) + 1 && arg(P, 0, old(calls(P))) == topic && arg(P, 1, old(calls(P))) == messages && result == ret(P, 0, old(calls(P))) [then-the-whole-batch-passed-on-in-one-call-error-returned]
+//@   assert @call:d.Publisher.Publish: calls(TR) == old(calls(TR)) + len(messages) [transform-before-publish]
+//@   inv loop 1: calls(TR) == old(calls(TR)) + rangeindex + 1 && calls(P) == old(calls(P)) && (forall j int :: 0 <= j && j <= rangeindex ==> arg(TR, 0, old(calls(TR)) + j) == messages[j]) [transformed-so-far]
+//@   panics-ensures calls(P) <= old(calls(P)) + 1
+
+//@ func (*messageTransformSubscriberDecorator).Subscribe$1
+//@   requires t != nil && t.transform != nil && out != nil && !closed(out)
+//@   ghost owns out
+//@   ghost consumes-wg t.subscribeWg
+//@   callee TR = t.transform
+//@   ensures closed(out) && wgtoken(t.subscribeWg) == 0 [output-closed-once-after-the-input-ended-then-done]
+//@   ensures sends(out) - old(sends(out)) == recvs(in) - old(recvs(in)) && calls(TR) - old(calls(TR)) == recvs(in) - old(recvs(in)) [every-received-message-transformed-and-passed-on]
+//@   ensures forall j int :: 0 <= j && j < recvs(in) - old(recvs(in)) ==> sent(out, old(sends(out)) + j) == recvd(in, old(recvs(in)) + j) && arg(TR, 0, old(calls(TR)) + j) == recvd(in, old(recvs(in)) + j) [same-messages-same-order-not-copies]
+//@   inv loop 1: !closed(out) && wgtoken(t.subscribeWg) == 1 && sends(out) - old(sends(out)) == recvs(in) - old(recvs(in)) && calls(TR) - old(calls(TR)) == recvs(in) - old(recvs(in)) && recvs(in) >= old(recvs(in)) [pump-accounting]
+//@   inv loop 1: forall j int :: 0 <= j && j < recvs(in) - old(recvs(in)) ==> sent(out, old(sends(out)) + j) == recvd(in, old(recvs(in)) + j) && arg(TR, 0, old(calls(TR)) + j) == recvd(in, old(recvs(in)) + j) [pump-log]
+//@   assert @send:out: calls(TR) - old(calls(TR)) == recvs(in) - old(recvs(in)) [transform-before-passing-on]
+//@   panics-ensures !closed(out) [a-panicking-transform-leaves-the-output-open]
+
+//@ func (*messageTransformSubscriberDecorator).Close
+//@   requires t != nil && t.sub != nil
+//@   callee SC = t.sub.Close
+//@   ensures calls(SC) == old(calls(SC)) + 1 && result == ret(SC, 0, old(calls(SC))) [inner-subscriber-closed-once-its-error-returned]
+//@   ensures wg(t.subscribeWg) == 0 [returns-only-after-every-pump-finished]
+//@   panics-ensures panicked(SC, old(calls(SC)))
+
+//@ func (*messageTransformSubscriberDecorator).Subscribe
+//@   requires t != nil && t.sub != nil && t.transform != nil
+//@   callee SS = t.sub.Subscribe
+//@   ensures calls(SS) == old(calls(SS)) + 1 && arg(SS, 0, old(calls(SS))) == ctx && arg(SS, 1, old(calls(SS))) == topic [subscribes-the-inner-subscriber-once-with-the-same-context-and-topic]
+//@   ensures ret(SS, 1, old(calls(SS))) != nil ==> result0 == nil && result1 == ret(SS, 1, old(calls(SS))) && spawned("(*messageTransformSubscriberDecorator).Subscribe$1") == old(spawned("(*messageTransformSubscriberDecorator).Subscribe$1")) [inner-error-passed-through-nothing-started]
+//@   ensures ret(SS, 1, old(calls(SS))) == nil ==> result1 == nil && result0 != nil && fresh(result0) && spawned("(*messageTransformSubscriberDecorator).Subscribe$1") == old(spawned("(*messageTransformSubscriberDecorator).Subscribe$1")) + 1 [one-pump-started-on-a-fresh-output-channel]
+//@   panics-ensures panicked(SS, old(calls(SS)))
+//@   modifies wg(t.subscribeWg)
